@@ -107,10 +107,15 @@ func genSizeCase(tp *simrt.Tape, name string, thorough bool) (*conformancev1.Tes
 		case 1, 2, 3:
 			delta = int64(tp.Choose(4, "delta.under")) * -1 // 0, -1, -2, -3
 		case 4, 5:
-			if last {
+			if last || (!info.OverLim && tp.Bool(1, 2, "over.notlast")) {
 				delta = int64(1 + tp.Choose(3, "delta.over")) // +1..+3
 				if tp.Bool(1, 4, "delta.plus10") {
 					delta = 10
+				}
+				if !last {
+					// as in the embedded suite: give the server time to reject the
+					// message and the client time to notice
+					tc.Request.RequestDelayMs = 50
 				}
 			}
 		case 6:
